@@ -1,4 +1,5 @@
 """C12 — CTR-wrapper writes keep ciphertext file and plaintext view consistent."""
+from filestack import ctr_slot
 from corr_c01 import gen_crypto_node, VirtualFile, HUGE, CTR_POOL
 from stackcheck import StackCheck, gen_ops
 
@@ -46,7 +47,7 @@ class C12(StackCheck):
         e = envsetup.install()
         eng = e.CryptoEngine()
         twl = case['kind'] == 'twl'
-        slot = 0x01 if twl else 0x10
+        slot = ctr_slot(case['kind'], case['key'])
         eng.set_normal_key(slot, case['key'])
         vf = VirtualFile((1 << 70) + 4096, case['seed'])
         f = eng.create_ctr_io(slot, vf, case['ctr'])
